@@ -189,6 +189,25 @@ func (f *Frame) execInstr(in ssa.Instruction, reach string, st *State) string {
 		if !e.declared[key] {
 			e.declared[key] = true
 			e.pre.asserts.WriteGlobal("(assert (not (= " + id + " 0)))\n")
+			// identity of the closed function and of its first binding are
+			// observable in contracts (isClosure, closrecv): function values
+			// are opaque in Go, so making the encoding injective excludes no
+			// execution.
+			e.declFun("closfn", "(Int) Int")
+			e.pre.asserts.WriteGlobal(fmt.Sprintf("(assert (= (closfn %s) %d))\n", id, e.closTag(fnKey(fn))))
+			if len(bs) > 0 && len(bs[0].C) > 0 && len(sorts) > 0 && sorts[0] == "Int" {
+				e.declFun("closrecv", "(Int) Int")
+				e.pre.asserts.WriteGlobal("(assert (= (closrecv " + id + ") " + bs[0].C[0] + "))\n")
+			}
+			for bi, b := range bs {
+				for ci, so := range e.layout(b.T) {
+					if ci < len(b.C) {
+						g := fmt.Sprintf("closb.%d.%d.%s", bi, ci, sanitize(so))
+						e.declFun(g, "(Int) "+so)
+						e.pre.asserts.WriteGlobal("(assert (= (" + g + " " + id + ") " + b.C[ci] + "))\n")
+					}
+				}
+			}
 		}
 		f.vals[x] = Val{T: x.Type(), C: []string{id}, Clos: &ClosVal{Fn: fn, Bindings: bs}}
 	case *ssa.Store:
